@@ -198,3 +198,35 @@ pub fn run(lines: &[Value], opts: &TableOpts, other_process_hashes: Option<Vec<S
     }
     sm
 }
+
+
+/// C05, size limits: chains and bundles of parallel edges with E = 1..max_e, and the documented maximum
+/// MAX_EDGES itself, must not panic (Ok or Err are both fine here).
+pub fn size_limits(max_e: usize) -> Summary {
+    use crate::dynsampler::GraphSpec;
+    let mut sm = Summary::default();
+    let mut sizes: Vec<usize> = (1..=max_e).collect();
+    sizes.push(momtrop::MAX_EDGES);
+    for e in sizes {
+        for shape in ["parallel", "chain"] {
+            if e > 24 && e != momtrop::MAX_EDGES { continue; }
+            // path-like graphs: the work-list of get_connected_components grows geometrically (about 3^E
+            // entries), 14 edges already need gigabytes; explored up to 9 edges only (DESIGN.md section 11)
+            if shape == "chain" && e > 9 { continue; }
+            let edges: Vec<(u8, u8)> = (0..e).map(|i| if shape == "parallel" { (0, 1) } else { (i as u8, i as u8 + 1) }).collect();
+            let gs = GraphSpec { edges, mass: vec![shape == "parallel"; e], weights: vec![if shape == "parallel" { 2.0 } else { 0.5 }; e],
+                                 ext: if shape == "parallel" { vec![0, 1] } else { vec![0, e as u8] } };
+            let t = std::time::Instant::now();
+            let out = build(&gs, vec![vec![0isize; 1]; e], 3);
+            sm.evaluations += 1;
+            sm.count(&format!("size_{}_{}", shape, out.name()));
+            sm.max("largest_E_built", if matches!(out, BuildOut::Ok(_) | BuildOut::Err(_)) { e as i64 } else { 0 });
+            if let BuildOut::Panic(m) = &out {
+                sm.violation("C05", format!("build_sampler panicked for a {} graph with {} edges (documented maximum {}): {}", shape, e, momtrop::MAX_EDGES, m.chars().take(120).collect::<String>()),
+                             json!({"size_limit": {"shape": shape, "edges": e}}), json!({"edges": e as i64, "shape": shape}));
+            }
+            if t.elapsed().as_secs() > 60 { break; }
+        }
+    }
+    sm
+}
